@@ -64,6 +64,16 @@ def pairs_on01(bct, sym):
     return P
 
 
+def _rc_odd(bd, bu):
+    """levels 1, 3, 5, … of rich_club_bd (degree = in + out), as many as rich_club_bu has levels"""
+    m = len(bu[0])
+    out = []
+    for x in bd:
+        x = np.asarray(x, dtype=float)
+        out.append(np.array([x[2 * k + 1] if 2 * k + 1 < len(x) else np.nan for k in range(m)]))
+    return out
+
+
 def pairs_symm(bct, binary):
     """(label, directed call, undirected call, exact?) — evaluated on a symmetric matrix"""
     P = [
@@ -73,6 +83,12 @@ def pairs_symm(bct, binary):
         ('degrees_dir[out]/degrees_und', lambda W: bct.degrees_dir(W)[1], bct.degrees_und, True),
         ('degrees_dir[total]/2*degrees_und', lambda W: bct.degrees_dir(W)[2], lambda W: 2 * bct.degrees_und(W), True),
         ('strengths_dir/2*strengths_und', bct.strengths_dir, lambda W: 2 * bct.strengths_und(W), False),
+        # 2k relations on symmetric input (theorems kcore_bd_eq_bu_symm, rich_level_bd_eq_bu_symm, density_dir_eq_und_symm)
+        ('kcore_bd(2k)/kcore_bu(k)', lambda W: [[(np.asarray(bct.kcore_bd(W, 2 * k)[0]) != 0).astype(float), bct.kcore_bd(W, 2 * k)[1]] for k in (1, 2, 3)],
+         lambda W: [[(np.asarray(bct.kcore_bu(W, k)[0]) != 0).astype(float), bct.kcore_bu(W, k)[1]] for k in (1, 2, 3)], True),
+        ('density_dir/density_und', lambda W: [bct.density_dir(W)[0], bct.density_dir(W)[1], bct.density_dir(W)[2]],
+         lambda W: [bct.density_und(W)[0], bct.density_und(W)[1], 2 * bct.density_und(W)[2]], False),
+        ('rich_club_bd[2k+1]/rich_club_bu[k]', lambda W: _rc_odd(bct.rich_club_bd(W), bct.rich_club_bu(W)), lambda W: list(bct.rich_club_bu(W)), False),
     ]
     if binary:
         P += [
